@@ -281,7 +281,7 @@ def run_standin(P, prop, repo, tier, seed):
     env = dict(os.environ, PYTHONPATH=f'{repo}:{HERE}', PYTHONHASHSEED=str(seed % 4294967295))
     try:
         cp = subprocess.run([sys.executable, '-m', mod, '--prop', prop, '--repo', repo, '--tier', tier],
-                            capture_output=True, text=True, timeout=1800, env=env, cwd=HERE)
+                            capture_output=True, text=True, timeout=(900 if tier == 'quick' else 3600), env=env, cwd=HERE, start_new_session=True)
         out = cp.stdout.strip().splitlines()
         return json.loads(out[-1]) if out else []
     except Exception as ex:
